@@ -825,6 +825,9 @@ class HfProtocol(utils.EventEmitter):
         """
         try:
             async with self.command_lock:
+                # Responses left over from before this command are not its responses
+                while not self.response_queue.empty():
+                    self.response_queue.get_nowait()
                 self.pending_command = cmd
                 logger.debug(f">>> {cmd}")
                 self.dlc.write(cmd + '\r')
